@@ -822,6 +822,53 @@ func syncFence(m *meta, rng *rand.Rand, round int) {
 	m.count("sync_fence_rounds")
 }
 
+// closeNotify (C06): evictions staged while the notifier is busy inside a listener, then Close: every entry that
+// left before Close must still be reported exactly once.
+func closeNotify(m *meta, rng *rand.Rand, round int) {
+	for trial := 0; trial < 6; trial++ {
+		pol := pick(rng, []kioshun.EvictionPolicy{kioshun.LRU, kioshun.FIFO})
+		ctx := fmt.Sprintf("close-notify round %d trial %d policy %v", round, trial, pol)
+		gate := make(chan struct{})
+		var first, entered atomic.Bool
+		first.Store(true)
+		var n, ev atomic.Int64
+		c, err := kioshun.New[int, int](kioshun.Config{MaxSize: 2, ShardCount: 1, EvictionPolicy: pol},
+			kioshun.WithOnRemove(func(k, v int, r kioshun.RemovalReason) {
+				if first.CompareAndSwap(true, false) {
+					entered.Store(true)
+					<-gate
+				}
+				n.Add(1)
+			}), kioshun.WithOnEvict(func(k, v int) { ev.Add(1) }))
+		must(err)
+		watch(ctx)
+		for k := 1; k <= 3; k++ {
+			c.Set(k, k, kioshun.NoExpiration)
+		}
+		for t0 := time.Now(); !entered.Load() && time.Since(t0) < 2*time.Second; {
+			runtime.Gosched()
+		}
+		for k := 4; k <= 6; k++ {
+			c.Set(k, k, kioshun.NoExpiration) // three more evictions staged behind the busy notifier
+		}
+		done := make(chan struct{})
+		go func() { c.Close(); close(done) }()
+		for t0 := time.Now(); time.Since(t0) < 2*time.Second; {
+			if _, _, _, _, closed := c.VerifLockState(0); closed {
+				break
+			}
+			runtime.Gosched()
+		}
+		close(gate)
+		<-done
+		unwatch()
+		if entered.Load() && (n.Load() != 4 || ev.Load() != 4) {
+			m.violate("C06", fmt.Sprintf("%s: 4 entries were evicted before Close began; OnRemove ran %d times, OnEvict %d times by the time Close returned", ctx, n.Load(), ev.Load()), ctx)
+		}
+	}
+	m.count("close_notify_rounds")
+}
+
 // flickerProbe replays the schedule of C02.v's c02_atomic_refuted on the real cache through the yield hooks:
 // a reader parked after loading a matching tag, the key deleted and re-inserted into the same slot, the
 // writer parked between publish's item store and tag store. Finding F10 when it reproduces.
@@ -892,14 +939,35 @@ func listenerCloseProbe(m *meta) {
 
 // expiryRace (C07 C05 C02): a short-TTL key re-written while readers hit its expiry path.
 func expiryRace(m *meta, rng *rand.Rand, round int) {
-	conf := kioshun.Config{MaxSize: pick(rng, []int64{8, 64}), ShardCount: 1, EvictionPolicy: pick(rng, []kioshun.EvictionPolicy{kioshun.SieveTinyLFU, kioshun.SieveTinyLFU, kioshun.LRU, kioshun.FIFO}), StatsEnabled: true}
+	conf := kioshun.Config{MaxSize: pick(rng, []int64{0, 8, 64}), ShardCount: 1, EvictionPolicy: pick(rng, []kioshun.EvictionPolicy{kioshun.SieveTinyLFU, kioshun.SieveTinyLFU, kioshun.LRU, kioshun.FIFO, kioshun.FIFO}), StatsEnabled: true}
 	ctx := fmt.Sprintf("expiry race round %d cfg %+v", round, conf)
-	c, err := kioshun.New[int, int](conf)
+	var mu sync.Mutex
+	seen := map[int]int{} // value -> notifications
+	expired, other := 0, 0
+	c, err := kioshun.New[int, int](conf, kioshun.WithOnRemove(func(k, v int, r kioshun.RemovalReason) {
+		mu.Lock()
+		seen[v]++
+		if seen[v] == 2 {
+			m.violate("C06", fmt.Sprintf("%s: entry (%d,v%d) reported twice (%s)", ctx, k, v, r), ctx)
+		}
+		if r == kioshun.RemovedExpired {
+			expired++
+			if v%2 == 1 {
+				// odd values are written with a one-hour TTL
+				for _, p := range []string{"C05", "C06"} {
+					m.violate(p, fmt.Sprintf("%s: entry (%d,v%d), written with a 1 h TTL microseconds ago, was removed and reported as expired", ctx, k, v), ctx)
+				}
+			}
+		} else {
+			other++
+		}
+		mu.Unlock()
+	}))
 	must(err)
 	stop := make(chan struct{})
 	var wg sync.WaitGroup
 	watch(ctx)
-	for g := 0; g < 4; g++ {
+	for g := 0; g < 6; g++ {
 		wg.Add(1)
 		go func() {
 			defer wg.Done()
@@ -916,19 +984,50 @@ func expiryRace(m *meta, rng *rand.Rand, round int) {
 				}
 				c.Get(1)
 				c.GetWithTTL(2)
+				c.Exists(1)
 			}
 		}()
 	}
+	missing := 0
 	for i := 0; i < 300; i++ {
-		c.Set(1, i, 150*time.Microsecond)
-		c.Set(2, i, 90*time.Microsecond)
+		c.Set(1, 2*i, 120*time.Microsecond)
+		c.Set(2, 1000000+2*i, 90*time.Microsecond)
 		if i%16 == 0 {
 			c.Cleanup()
 		}
-		time.Sleep(100 * time.Microsecond)
+		time.Sleep(150 * time.Microsecond) // both are expired now; the readers race to discover it
+		c.Set(1, 2*i+1, time.Hour)         // rewrite while readers may hold the expired item
+		for j := 0; j < 3; j++ {
+			runtime.Gosched()
+			if v, rem, ok := c.GetWithTTL(1); !ok || v != 2*i+1 || rem <= 0 || rem > time.Hour {
+				missing++
+				if missing <= 2 {
+					m.violate("C05", fmt.Sprintf("%s: Set(1,v%d,1h) returned, nobody else writes or deletes and the cache has room, yet GetWithTTL(1)=(%d,%v,%v)", ctx, 2*i+1, v, rem, ok), ctx)
+				}
+				break
+			}
+		}
 	}
 	close(stop)
 	wg.Wait()
+	c.Sync()
+	// quiescent: wait for the notifier, then the expiry counter must equal the expiry notifications
+	var st kioshun.Stats
+	for t0 := time.Now(); time.Since(t0) < 2*time.Second; time.Sleep(200 * time.Microsecond) {
+		c.VerifFlushRemovals()
+		st = c.Stats()
+		mu.Lock()
+		e := expired
+		mu.Unlock()
+		if int64(e) == st.Expirations {
+			break
+		}
+	}
+	mu.Lock()
+	if int64(expired) != st.Expirations {
+		m.violate("C10", fmt.Sprintf("%s: Stats().Expirations=%d but %d expiry notifications were delivered (%d others) after quiescence", ctx, st.Expirations, expired, other), ctx)
+	}
+	mu.Unlock()
 	c.Set(3, 3, 0)
 	c.Delete(1)
 	c.Sync()
@@ -1089,6 +1188,7 @@ func streamConc(o opts) {
 			stalledProducer(m, rng, r)
 			syncOvertake(m, rng, r)
 			syncFence(m, rng, r)
+			closeNotify(m, rng, r)
 			m.nontrivial(fmt.Sprintf("async+close/%d", r%16))
 		case 3:
 			tableRace(m, rng, r)
